@@ -196,7 +196,7 @@ func Gen(seed uint64, tier string) any {
 	case x < 75:
 		kinds := []string{"drop", "dup", "swap", "flip", "id", "rcode", "stall", "delay"}
 		if sc.Alg != "" {
-			kinds = append(kinds, "unsign", "wrongkey", "flip", "unsign", "wrongkey", "shortmac", "shortmac", "nokey", "parentkey")
+			kinds = append(kinds, "unsign", "wrongkey", "flip", "unsign", "wrongkey", "shortmac", "shortmac", "nokey", "parentkey", "heldkey", "heldkey")
 		}
 		nf := 1
 		if core.Chance(r, 20) {
@@ -209,7 +209,7 @@ func Gen(seed uint64, tier string) any {
 				continue
 			}
 			used[op.Env] = true
-			if op.Kind == "parentkey" {
+			if op.Kind == "parentkey" || op.Kind == "heldkey" {
 				op.Frac = r.IntN(2)
 			}
 			if op.Kind == "flip" {
@@ -490,7 +490,15 @@ type run struct {
 }
 
 //go:norace
-func secrets() map[string]string { return map[string]string{keyName: secretGood} }
+func secrets() map[string]string {
+	return map[string]string{keyName: secretGood, heldKeyName: heldSecret}
+}
+
+// a second key both ends hold (for another zone, another peer); no request of a run is made under it
+const (
+	heldKeyName = "held-too.example."
+	heldSecret  = "aGVsZC10b28tc2VjcmV0LTAxMjM0NTY3ODlhYmNkZWY="
+)
 
 type clientTask struct{ x *run }
 
@@ -1034,7 +1042,7 @@ func runIn(sc *Scenario, res *core.Result, verbose bool) {
 	if sc.CutAt > 0 {
 		cli.CutAfter(sc.CutAt, sc.CutRST)
 	}
-	x.relay = &common.Relay{K: k, ToClient: relayC, ToServer: relayS, Ops: sc.Ops, WrongSecret: secretBad, RightSecret: secretGood, KeyName: keyName, Alg: sc.Alg}
+	x.relay = &common.Relay{K: k, ToClient: relayC, ToServer: relayS, Ops: sc.Ops, WrongSecret: secretBad, RightSecret: secretGood, KeyName: keyName, Alg: sc.Alg, HeldKey: heldKeyName, HeldSecret: heldSecret}
 	x.relay.Start()
 	start0 := time.Now()
 	k.Go("client", &clientTask{x})
@@ -1159,9 +1167,11 @@ func (x *run) judge(start0 time.Time) {
 	var recs [][]string
 	tsigBadAt, judgable := -1, true
 	var prior []byte
+	reqKey, reqAlg := "", ""
 	if len(x.relay.Out["c2s"]) > 0 {
 		if qt, _, ok := oracle.FindTSIG(x.relay.Out["c2s"][0]); ok {
 			prior = qt.MAC
+			reqKey, reqAlg = qt.KeyName, qt.AlgName
 		}
 	}
 	for i, f := range delivered {
@@ -1216,6 +1226,13 @@ func (x *run) judge(start0 time.Time) {
 				judgable = false
 			}
 			if !v.Valid {
+				tsigBadAt = i
+			}
+			// wrongly keyed: an answer is signed with the key and algorithm of its request (RFC 8945 5.3);
+			// one that verifies under some other key the receiver happens to hold, or under another
+			// algorithm, is not an answer to this request
+			if et, _, ok := oracle.FindTSIG(f); ok && reqKey != "" && v.Valid && (et.KeyName != reqKey || et.AlgName != reqAlg) {
+				res.Bump("oracle.T5_key_and_algorithm_of_the_request")
 				tsigBadAt = i
 			}
 			prior = v.MAC
